@@ -152,7 +152,15 @@ func (s *Server) serveStream(ctx context.Context, r io.Reader, w io.Writer, req 
 		slog.Debug("stream: writing header", "method", info.Name, "type", fmt.Sprintf("%T", streamResult.Header))
 		if err := s.writeStreamHeader(w, streamResult.Header, callCtx.drainLogs()); err != nil {
 			slog.Debug("stream: header write error", "method", info.Name, "err", err)
-			return nil, nil // transport error during header, bail out
+			// Usually the header did not serialise and nothing was written yet:
+			// answer like every other init failure (error stream, input
+			// drained) so the client is not left waiting and the dispatch-end
+			// hook learns the call failed. If it was the transport, both
+			// writes fail the same way and the serve loop ends on its next read.
+			hdrErr := &RpcError{Type: "SerializationError", Message: fmt.Sprintf("stream header: %v", err)}
+			s.logIPCWriteErr("error-response", req.Method, writeErrorResponse(w, outputSchema, hdrErr, s.serverID, req.RequestID, s.debugErrors))
+			drainInputStream(r)
+			return hdrErr, nil
 		}
 		slog.Debug("stream: header written", "method", info.Name)
 	}
